@@ -105,8 +105,17 @@ def parse_model_struct(s, tags):
     return out
 
 
-def struct_eq(a, b):
-    return a == b
+def de(x):
+    """normalise Fortran D exponents in a nested token structure (the parsers replace D by E before float())"""
+    if isinstance(x, str):
+        return x.replace('D', 'E')
+    if isinstance(x, dict):
+        return {k: de(v) for k, v in x.items()}
+    if isinstance(x, tuple):
+        return tuple(de(v) for v in x)
+    if isinstance(x, list):
+        return [de(v) for v in x]
+    return x
 
 
 # ------------------------------------------------------------------------------------------------ number formats
@@ -364,7 +373,7 @@ def run_12(ctx, w, c, text, model, extra=None):
                 if dd:
                     res['impl_vs_model'] = 'transition %r %s' % (tr, dd)
                     break
-        res['model_vs_tables'] = None if md == want else 'model parse differs from the generated tables'
+        res['model_vs_tables'] = None if md == de(want) else 'model parse differs from the generated tables'
     else:
         res['impl_vs_model'] = 'model says %s, implementation parsed the file' % model
     st2, e = quiet(I.install_adf12, donor, meta, receiver, charge, rel, repository_path=w.repo, adas_path=w.adas)
